@@ -20,6 +20,23 @@ Fixpoint k2_shape (s : src) : bool :=
   | _ => false
   end.
 
+(* K7: a CachedSource whose wrapped source announces a file but maps no chunk (e.g. an empty
+   OriginalSource, or only such leaves next to unmapped text).  Cold, it forwards the wrapped
+   stream with its announcements; its cached map is None, so warm it replays a raw stream and
+   announces nothing: the enclosing map() lists that (unreferenced) file - and pads the
+   sourcesContent of the files before it with "" - on the first call only. *)
+Definition announces_unmapped (inner : src) : bool :=
+  let evs := fst (fst (stream [] inner (mkOpts true false))) in
+  negb (is_nil (contents_of_events evs)) && negb (mapped_chunk_exists evs).
+Fixpoint k7_shape (s : src) : bool :=
+  match s with
+  | SCached _ inner => announces_unmapped inner || k7_shape inner
+  | SConcat cs => existsb k7_shape cs
+  | SReplace inner _ => k7_shape inner
+  | _ => false
+  end.
+
+
 Fixpoint hev_eqb (a b : hev) : bool :=
   match a, b with
   | HB x, HB y => text_eqb x y
@@ -92,7 +109,50 @@ Definition get_events (a : answer) : list event := match a with AStream e _ => e
 (* final_ops = [OHash; OSrc; OBuf; OMap true; OMap false; OStream true false; OStream false false; OHash] *)
 Definition nth_ans (l : list answer) (i : nat) : answer := nth i l ANone.
 
-(* observational equality: text, buffer and attribution of map() (both column settings) *)
+(* the content a map carries for a file it attributes text to (None: no sourcesContent entry) *)
+Fixpoint file_index (m : smap) (srcs : list text) (f : text) (i : N) : option N :=
+  match srcs with
+  | [] => None
+  | x :: srcs' => if text_eqb (get_source m x) f then Some i else file_index m srcs' f (i + 1)
+  end.
+Definition content_of_file (m : option smap) (f : text) : option text :=
+  match m with
+  | Some m => match file_index m (sm_sources m) f 0 with Some i => nth_opt (sm_contents m) i | None => None end
+  | None => None
+  end.
+Definition referenced_contents_agree (x y : option smap) (t : text) (cols : bool) : bool :=
+  forallb (fun a => match a with
+                    | Some l => opt_eqb text_eqb (content_of_file x (l_file l)) (content_of_file y (l_file l))
+                    | None => true end)
+          (attr_of_map x t cols).
+
+(* for DIFFERENT trees related by a composition law: an absent sourcesContent entry and an empty
+   one are the same thing (the tables are positional: a missing content in front of a present one
+   is stored as "") *)
+Definition content_same (a b : option text) : bool :=
+  match a, b with
+  | None, Some [] | Some [], None => true
+  | _, _ => opt_eqb text_eqb a b
+  end.
+Definition referenced_contents_same (x y : option smap) (t : text) (cols : bool) : bool :=
+  forallb (fun a => match a with
+                    | Some l => content_same (content_of_file x (l_file l)) (content_of_file y (l_file l))
+                    | None => true end)
+          (attr_of_map x t cols).
+Definition obs_equiv_laws (a b : list answer) : N :=
+  let t := get_text (nth_ans a 1) in
+  if negb (text_eqb t (get_text (nth_ans b 1))) then 1
+  else if negb (text_eqb (get_text (nth_ans a 2)) (get_text (nth_ans b 2))) then 2
+  else if negb (list_eqb_attr attr_eqb (attr_of_map (get_map (nth_ans a 3)) t true)
+                                        (attr_of_map (get_map (nth_ans b 3)) t true)) then 3
+  else if negb (list_eqb_attr attr_eqb_fl (attr_of_map (get_map (nth_ans a 4)) t false)
+                                           (attr_of_map (get_map (nth_ans b 4)) t false)) then 4
+  else if negb (referenced_contents_same (get_map (nth_ans a 3)) (get_map (nth_ans b 3)) t true) then 5
+  else if negb (referenced_contents_same (get_map (nth_ans a 4)) (get_map (nth_ans b 4)) t false) then 6
+  else 0.
+
+(* observational equality: text, buffer, attribution of map() (both column settings) and the
+   content carried for every file text is attributed to *)
 Definition obs_equiv (a b : list answer) : N :=
   let t := get_text (nth_ans a 1) in
   if negb (text_eqb t (get_text (nth_ans b 1))) then 1
@@ -101,6 +161,8 @@ Definition obs_equiv (a b : list answer) : N :=
                                         (attr_of_map (get_map (nth_ans b 3)) t true)) then 3
   else if negb (list_eqb_attr attr_eqb_fl (attr_of_map (get_map (nth_ans a 4)) t false)
                                            (attr_of_map (get_map (nth_ans b 4)) t false)) then 4
+  else if negb (referenced_contents_agree (get_map (nth_ans a 3)) (get_map (nth_ans b 3)) t true) then 5
+  else if negb (referenced_contents_agree (get_map (nth_ans a 4)) (get_map (nth_ans b 4)) t false) then 6
   else 0.
 
 (* C13: both sides of a composition law behave alike.  relaxed = the law compares columns only up
@@ -120,7 +182,7 @@ Definition chk_C13 (a b : src) (relaxed : bool) (o : pair_obs) : N :=
       else if negb (list_eqb_attr attr_eqb_fl (attr_of_map (get_map (nth_ans (po_a o) 4)) t false)
                                                (attr_of_map (get_map (nth_ans (po_b o) 4)) t false)) then 4
       else 0
-    else obs_equiv (po_a o) (po_b o) in
+    else obs_equiv_laws (po_a o) (po_b o) in
   match r with
   | 0 => 0
   | k => if k2_shape a || k2_shape b then 52 else k
@@ -143,7 +205,9 @@ Definition chk_C14_pair (a b : src) (o : pair_obs) : N :=
           && text_eqb (get_text (nth_ans (po_a o) 2)) (get_text (nth_ans (po_b o) 2)) then 0 else 3)
     else match obs_equiv (po_a o) (po_b o) with
          | 0 => 0
-         | k => if k2_shape a || k2_shape b then 52 else 10 + k
+         | k => if k2_shape a || k2_shape b then 52
+                else if ((k =? 5) || (k =? 6)) && (k7_shape a || k7_shape b) then 57
+                else 10 + k
          end
   else 0.
 
